@@ -11,10 +11,10 @@ RULE = ("random well-formed textgrids (1-3 interval/point tiers, 0-4 entries; la
         "quotes, runs of quotes at either end, newlines, '=', digits, brackets, backslash, non-ASCII, astral; times: 1-6 digit "
         "decimals, integers, integers x (1 +- 10^-k) for k=9..16, integers +-1..2 ulp, k/64, powers of ten from 1e-17 to 1e15, "
         "uniform up to 1e15; a quarter of the textgrids reflected to NEGATIVE times - wholly below 0 with the span ending at -0.0, or on "
-        "both sides of 0; tier names with leading/trailing blanks, tabs, U+3000 and with line breaks; within one tier distinct "
+        "both sides of 0; tier names with leading/trailing blanks, tabs, U+3000, with line breaks and with lines that read like a span row; within one tier distinct "
         "times differ by >= 1e-6 so that no sliver is absorbed) x 4 formats x "
         "includeBlankSpaces x includeEmptyIntervals; a separate keyword stream puts the formats' own keywords into labels and "
-        "names (known finding A10; A33: a line of a multi-line name that reads like the tier's span row). Each case: save through a real file, open the file, compare, save the reopened textgrid and "
+        "names (known finding A10). Each case: save through a real file, open the file, compare, save the reopened textgrid and "
         "compare the text; the text and the parse are also compared with the Lean emitter / parser models - for every textgrid "
         "also both JSON texts (json.dumps model) and what parseTextgridStr reads from them and from an independently written "
         "JSON document with the same content (other key order, white space, \\u escapes, numeral styles, extra/duplicate keys). "
@@ -272,12 +272,12 @@ def corpus():
                                          {"k": "P", "name": " e\n f\"g\" \n", "es": [[0.5, "m"]], "lo": 0.0, "hi": 2.0}]}
     for fmt in ioops.FORMATS:
         yield {"op": "roundtrip", "tg": g10, "fmt": fmt, "blanks": True, "iei": True}
-    # A33 (known): a line of a multi-line name that reads like the tier's span row is taken for it by the long-format reader
+    # A33 (fixed): a line of a multi-line name that reads like the tier's span row was taken for it by the long-format reader
     g11 = {"lo": 0.0, "hi": 2.0, "tiers": [{"k": "P", "name": "xmin = 1\nb", "es": [[0.5, "p"]], "lo": 0.0, "hi": 2.0}]}
     g12 = {"lo": 0.0, "hi": 2.0, "tiers": [{"k": "P", "name": "a\n xmax= -2.5 \nz", "es": [[0.5, "p"]], "lo": 0.0, "hi": 2.0}]}
     for g in (g11, g12):
         for fmt in ioops.FORMATS:
-            yield {"op": "roundtrip", "tg": g, "fmt": fmt, "blanks": False, "iei": True, "stream": "keyword"}
+            yield {"op": "roundtrip", "tg": g, "fmt": fmt, "blanks": False, "iei": True}
     yield from json_corpus()
 
 
@@ -420,7 +420,7 @@ def gen_main(rnd, tier):
     for i in range(n):
         kw = rnd.random() < 0.12
         labels = ioops.PLAIN_LABELS + (ioops.KEYWORD_LABELS if kw else [])
-        names = ioops.NAMES + (ioops.KEYWORD_NAMES + ioops.ROW_NAMES if kw and rnd.random() < 0.3 else [])
+        names = ioops.NAMES + (ioops.KEYWORD_NAMES if kw and rnd.random() < 0.3 else [])
         g = despace(ioops.gen_tg(rnd, rnd.choice(["full", "full", "simple"]), labels=labels, names=names), rnd)
         blanks = rnd.random() < 0.6
         if not blanks and rnd.random() < 0.3:
